@@ -144,10 +144,13 @@ func (s *ftpService) Handle(ctx context.Context, conn net.Conn) error {
 		}
 	}()
 
-	ftpConn.Serve()
+	// also when a command panics (the server recovers it): end the reporter
+	defer func() {
+		close(recv)
+		<-done
+	}()
 
-	close(recv)
-	<-done
+	ftpConn.Serve()
 
 	return nil
 }
